@@ -1,8 +1,10 @@
 import AslModel.Xdl
 import AslProofs.Xdl
 import AslProofs.XdlChunks
+import AslProofs.JsonSpec
+import AslProofs.XdlRfcMain
 /-!
-# C06 — JSON/XDL decoding is total, memory-safe and chunk-independent (JSON conformance: see below)
+# C06 — JSON/XDL decoding is total, memory-safe, chunk-independent and RFC 8259 conformant
 
 Property theorems only.  All statements are about `AslModel.Xdl` (the transcription of `XdlParser` that
 the driver `asl_c06` runs against the real library on every check).  In the model `none` means "the code
@@ -76,6 +78,96 @@ theorem decode_stops_at_nul (a b : Bytes) (ha : (0 : UInt8) ∉ a) : decode (a +
       simp [hx]
       simpa using ih ht
   simp [decode, decodeFrom, parse, h1, cstr_of_nonul a ha]
+
+/-! ## RFC 8259 conformance
+
+`Rfc8259.SerDoc v w` (lean/AslProofs/JsonSpec.lean) is the JSON grammar written from the RFC as an
+inductive relation, independent of the parser: `w` is a JSON-text denoting the tree `v` (numbers denote
+their lexeme, strings the UTF-8 bytes of their code points, objects their member lists).
+`Rfc8259.norm v` is the `Var` the decoder must build for `v`: integers of at most 9 characters become
+`int`, all other numbers are `atof` of the lexeme, duplicate keys resolve to the last value. -/
+
+/-- every RFC 8259 text (any white space, every number spelling, every escape incl. `\/` and surrogate
+    pairs; no `\u0000`, no lone surrogates; nesting ≤ 1000 = XDL_MAX_DEPTH) is accepted and yields the
+    value it denotes -/
+theorem rfc_accept (v : JV) (w : Bytes) (h : Rfc8259.SerDoc v w) (hd : Rfc8259.depth v ≤ 1000) :
+    decode w = some (some (Rfc8259.norm v)) :=
+  AslProofs.XdlRfc.decode_doc v w h hd
+
+/-- ... also when the text arrives in arbitrary chunks (corollary of `chunk_indep`) -/
+theorem rfc_accept_chunked (v : JV) (chunks : List Bytes) (h : Rfc8259.SerDoc v chunks.flatten)
+    (hd : Rfc8259.depth v ≤ 1000) :
+    ((parseChunks init chunks).bind fun p => (parse p [32]).map value) = some (some (Rfc8259.norm v)) := by
+  have hn : ∀ c ∈ chunks, (0 : UInt8) ∉ c := by
+    intro c hc h0
+    exact AslProofs.XdlRfc.serDoc_nonul h (List.mem_flatten.mpr ⟨c, hc, h0⟩)
+  rw [chunk_indep chunks hn]
+  exact rfc_accept v _ h hd
+
+/-- the integer the decoder returns for a short integer lexeme is its decimal value, e.g. "-120" ↦ -120 -/
+example : Rfc8259.norm (.num [45, 49, 50, 48]) = .int (-120) := by rfl
+example : Rfc8259.norm (.num [49, 50, 51, 52, 53, 54, 55, 56, 57, 48]) = .num [49, 50, 51, 52, 53, 54, 55, 56, 57, 48] := by
+  rfl
+
+/-- duplicate keys: the value found under `k` is the last one given for `k` -/
+theorem norm_object_lookup (ms acc : List (Bytes × JV)) (k : Bytes) :
+    (Rfc8259.normM ms acc).lookup k =
+      ms.foldl (fun r m => if m.1 = k then some (Rfc8259.norm m.2) else r) (acc.lookup k) := by
+  have hset : ∀ (l : List (Bytes × JV)) (k' : Bytes) (x : JV),
+      (objSet l k' x).lookup k = if k' = k then some x else l.lookup k := by
+    intro l k' x
+    induction l with
+    | nil =>
+      by_cases h : k' = k
+      · simp [objSet, List.lookup, h]
+      · have : (k == k') = false := by simp [Ne.symm h]
+        simp [objSet, List.lookup, h, this]
+    | cons a t ih =>
+      obtain ⟨ka, va⟩ := a
+      by_cases h1 : ka = k'
+      · subst h1
+        by_cases h : ka = k
+        · simp [objSet, List.lookup, h]
+        · have : (k == ka) = false := by simp [Ne.symm h]
+          simp [objSet, List.lookup, h, this]
+      · by_cases h2 : k = ka
+        · subst h2
+          have : ¬ k' = k := fun h => h1 h.symm
+          simp [objSet, h1, List.lookup, this]
+        · have : (k == ka) = false := by simp [h2]
+          simp [objSet, h1, List.lookup, this, ih]
+  induction ms generalizing acc with
+  | nil => simp [Rfc8259.normM]
+  | cons m t ih =>
+    obtain ⟨k', v⟩ := m
+    simp only [Rfc8259.normM, List.foldl_cons]
+    rw [ih, hset]
+
+/-- non-vacuity: `{"a":[1,2.5e0,"\u00e9\n"]}` is in the grammar (object, array, int, float, escapes) -/
+example : Rfc8259.SerDoc
+    (.obj [([97], .arr [.num [49], .num [50, 46, 53, 101, 48], .str [0xC3, 0xA9, 10]])])
+    [123, 34, 97, 34, 58, 91, 49, 44, 50, 46, 53, 101, 48, 44, 34, 92, 117, 48, 48, 101, 57, 92, 110, 34, 93, 125] := by
+  have hws : Rfc8259.Ws [] := by intro c h; simp at h
+  refine ⟨[], [123, 34, 97, 34, 58, 91, 49, 44, 50, 46, 53, 101, 48, 44, 34, 92, 117, 48, 48, 101, 57, 92, 110, 34, 93, 125],
+    [], hws, ?_, hws, rfl⟩
+  have n1 : Rfc8259.Number [49] :=
+    Rfc8259.Number.mk [] [49] [] [] (Or.inl rfl) (.nz 49 [] (by decide) (by decide) (by intro c h; simp at h)) .none .none
+  have n2 : Rfc8259.Number [50, 46, 53, 101, 48] :=
+    Rfc8259.Number.mk [] [50] [46, 53] [101, 48] (Or.inl rfl)
+      (.nz 50 [] (by decide) (by decide) (by intro c h; simp at h))
+      (.some 53 [] (by unfold Rfc8259.isDig; decide) (by intro c h; simp at h))
+      (.some 101 [] 48 [] (Or.inl rfl) (Or.inl rfl) (by unfold Rfc8259.isDig; decide) (by intro c h; simp at h))
+  have c1 : Rfc8259.Chars [0xC3, 0xA9, 10] [92, 117, 48, 48, 101, 57, 92, 110] :=
+    Rfc8259.Chars.uni 48 48 101 57 0xE9 [10] [92, 110] (by decide) (by decide) (by decide)
+      (Rfc8259.Chars.esc 110 10 [] [] (by decide) .nil)
+  have e : Rfc8259.SerElems [.num [49], .num [50, 46, 53, 101, 48], .str [0xC3, 0xA9, 10]]
+      [49, 44, 50, 46, 53, 101, 48, 44, 34, 92, 117, 48, 48, 101, 57, 92, 110, 34] :=
+    Rfc8259.SerElems.cons _ _ [] [49] [] _ hws (.num _ n1) hws
+      (Rfc8259.SerElems.cons _ _ [] [50, 46, 53, 101, 48] [] _ hws (.num _ n2) hws
+        (Rfc8259.SerElems.one _ [] _ [] hws (.str _ _ c1) hws))
+  exact Rfc8259.SerV.obj _ _
+    (Rfc8259.SerMembers.one [97] _ [] [97] [] [] _ [] hws (.plain 97 [] [] (by unfold Rfc8259.unescaped; decide) .nil) hws hws
+      (Rfc8259.SerV.arr _ _ e) hws)
 
 /-! ## non-vacuity: the model decodes, rejects, and depends on its input -/
 
